@@ -19,6 +19,9 @@
 (* pinned or the repaired mechanism, the properties never mention them):   *)
 (*   Build       CompositeParameter.__init__ (reads operand._use_cache)    *)
 (*   Call        __call__ with the per-operand cache                       *)
+(*   Retune      a keyword argument of the time-dependent leaves edited in *)
+(*               place (Parameter.kwargs is a public attribute and part of *)
+(*               the cache key)                                            *)
 (*   Clear       _clear_cache recursion                                    *)
 (*   Pickle/Unpickle   __getstate__/__setstate__: object = slot part       *)
 (*               (time_dependent, _cache, _use_cache: __slots__ of the     *)
@@ -49,13 +52,16 @@ CONSTANTS
   MCacheKeyXOnly,  \* TRUE (mutant): the operand cache is keyed by x (and t) only: y and z do not take part
   MConstDtype,     \* TRUE (mutant): tdgl.Constant takes the dtype of x: a fractional value is truncated at integer-typed points
   MCacheKeyBuffer, \* TRUE (mutant): the operand cache identifies an array argument by the memory it occupies, not by its content
-  MCacheKeyTime    \* TRUE: the operand cache is keyed by the time argument as well (pinned and repaired)
+  MCacheKeyTime,   \* TRUE: the operand cache is keyed by the time argument as well (pinned and repaired)
+  MCacheKeyHashT,  \* FALSE: the time part of the cache key distinguishes all times (prescribed);  TRUE (pinned): it is CPython's
+                   \* hash of the time, and hash(-1) = hash(-2) = -2 for ints and floats: the key cannot tell t = -1 from t = -2
+  MCacheKeyHashK   \* the same for the keyword part of the key (the operand's keyword arguments): FALSE prescribed, TRUE pinned
 
 VARIABLES
   tree,     \* the expression
   pc,       \* "grow" | "built" | "failed" | "cleared" | "pickled" | "copied" | "solved"
-  orig,     \* the built object:   [td, filled, first]
-  copy,     \* the unpickled copy: [alive, td, filled, first, eq]
+  orig,     \* the built object:   [td, filled, first, kw]
+  copy,     \* the unpickled copy: [alive, td, filled, first, kw, eq]
   pickled,  \* what the pickle holds: [has (slot part present), td]
   last,     \* result of the latest Call / Eq / Clear / Solve:  [what, ...]
   ncalls
@@ -195,7 +201,10 @@ Pts == << [x |-> 1 * Q, y |-> 0,      z |-> 1 * Q],
           [x |-> 1 * Q, y |-> 0,      z |-> 96],    [x |-> 96, y |-> 32, z |-> 32], [x |-> 0, y |-> 1 * Q, z |-> -32],
           \* 10-12: integer coordinates (delivered as integer-typed scalars / arrays)
           [x |-> 1 * Q, y |-> 0, z |-> 1 * Q], [x |-> 2 * Q, y |-> 1 * Q, z |-> 0], [x |-> 0, y |-> 1 * Q, z |-> (-1) * Q] >>
-Times == {0, 1 * Q, 3 * Q}
+\* times (a time is any real number: the documented signature puts no sign or range on t): zero, positive, negative,
+\* integral and fractional; -1 and -2 are both there
+TimeSeq == <<0, 1 * Q, 3 * Q, (-1) * Q, (-2) * Q, -(Q \div 2)>>
+Times == {TimeSeq[n] : n \in 1..Len(TimeSeq)}
 \* the leaves used by the binding:  P2 = x + 2y - a (a=2),  P3 = x - y + z + b (b=1),
 \* PT = x + y + 2z - c + t (c=1),  I = 2,  F = 0.5
 \* vector-valued leaves are evaluated per component: p in 101..109 is (point, component) = ((p - 101) \div 3 + 1, (p - 101) % 3 + 1)
@@ -204,10 +213,14 @@ CompOf(p) == IF p <= 12 THEN 0 ELSE ((p - 101) % 3) + 1
 \* the documented linear ramp: initial before tmin, final from tmax on, linear in between (written here, not taken from the package)
 Ramp(t, tmin, tmax, ini, fin) == IF t < tmin THEN ini
                                  ELSE IF t < tmax THEN ini + ((fin - ini) * (t - tmin)) \div (tmax - tmin) ELSE fin
-LeafVal(k, p, t) ==
+\* c = the keyword argument c of the time-dependent leaves PT / PTb: 1 as built; the dictionary Parameter.kwargs is a
+\* public attribute, and editing it in place between two calls is an environment move (Retune)
+KwSeq == <<1 * Q, (-1) * Q, (-2) * Q>>
+KwVals == {KwSeq[n] : n \in 1..Len(KwSeq)}
+LeafValC(k, p, t, c) ==
   CASE k = "P2" -> Pts[PtOf(p)].x + 2 * Pts[PtOf(p)].y - 2 * Q
     [] k = "P3" -> Pts[PtOf(p)].x - Pts[PtOf(p)].y + Pts[PtOf(p)].z + Q
-    [] k = "PT" -> Pts[PtOf(p)].x + Pts[PtOf(p)].y + 2 * Pts[PtOf(p)].z - Q + t
+    [] k = "PT" -> Pts[PtOf(p)].x + Pts[PtOf(p)].y + 2 * Pts[PtOf(p)].z - c + t
     [] k = "I" -> 2 * Q
     [] k = "F" -> Q \div 2
     \* twins: another leaf of the same kind that the library's == cannot tell from the first (same function code and
@@ -215,7 +228,7 @@ LeafVal(k, p, t) ==
     \* but that computes other values:  P2b = P2 - 4,  P3b = P3 + 2,  PTb = PT - 3
     [] k = "P2b" -> Pts[PtOf(p)].x + 2 * Pts[PtOf(p)].y - 2 * Q - 4 * Q
     [] k = "P3b" -> Pts[PtOf(p)].x - Pts[PtOf(p)].y + Pts[PtOf(p)].z + Q + 2 * Q
-    [] k = "PTb" -> Pts[PtOf(p)].x + Pts[PtOf(p)].y + 2 * Pts[PtOf(p)].z - Q + t - 3 * Q
+    [] k = "PTb" -> Pts[PtOf(p)].x + Pts[PtOf(p)].y + 2 * Pts[PtOf(p)].z - c + t - 3 * Q
     \* tdgl.Constant(value, dimensions): K2 / K3 = Constant(0.5, 2 / 3);  KC2 / KC3 = Constant(0.5 + 1j, 2 / 3), counted in units
     \* of its own (complex) value, in expressions that are linear and homogeneous in it
     [] k \in {"K2", "K3"} -> Q \div 2
@@ -232,15 +245,17 @@ LeafVal(k, p, t) ==
     [] k = "CF" -> (CASE CompOf(p) = 1 -> -(Pts[PtOf(p)].y - Q \div 2) [] CompOf(p) = 2 -> Pts[PtOf(p)].x - 3 * (Q \div 4)
                       [] CompOf(p) = 3 -> 0 [] OTHER -> U)
     [] k = "CL" -> (IF CompOf(p) \in {1, 2} THEN Q ELSE U)
+LeafVal(k, p, t) == LeafValC(k, p, t, Q)
 
 \* the values of ConstantField / CurrentLoop come out of unit conversions and are exact only up to rounding; whether an
 \* exponent computed from them is an integer (which decides the value for a negative base) is then not decidable: a power
 \* with such an exponent is outside the exact evaluation domain
 InexactExp(tr) == tr.op = "pow" /\ Kinds(tr.r) \cap {"CF", "CL"} # {}
 ApplyN(tr, a, b) == IF InexactExp(tr) THEN U ELSE Apply(tr.op, a, b)
-RECURSIVE Eval(_, _, _)
-Eval(tr, p, t) == IF IsLeaf(tr) THEN LeafVal(tr.k, p, t)
-                  ELSE ApplyN(tr, Eval(tr.l, p, t), Eval(tr.r, p, t))
+RECURSIVE EvalC(_, _, _, _)
+EvalC(tr, p, t, c) == IF IsLeaf(tr) THEN LeafValC(tr.k, p, t, c)
+                      ELSE ApplyN(tr, EvalC(tr.l, p, t, c), EvalC(tr.r, p, t, c))
+Eval(tr, p, t) == EvalC(tr, p, t, Q)
 
 TdKinds == {"PT", "PTb", "RU", "RD"}
 TimeDep(tr) == Kinds(tr) \cap TdKinds # {}
@@ -275,7 +290,8 @@ IntArgs == {"arrI", "i1", "i2"}
 XOf(a) == IF a \in {"arr", "arrY", "arrZ"} THEN "x1" ELSE a       \* contents with the same x coordinates
 VecArgs == {"vec", "vec2"}
 Bufs == {"b1", "v1", "s1", "tmp"}
-EvalAt(tr, a, t) == [n \in 1..Len(ArgPts(a)) |-> Eval(tr, ArgPts(a)[n], t)]
+EvalAtC(tr, a, t, c) == [n \in 1..Len(ArgPts(a)) |-> EvalC(tr, ArgPts(a)[n], t, c)]
+EvalAt(tr, a, t) == EvalAtC(tr, a, t, Q)
 
 -----------------------------------------------------------------------------
 (* MECHANISM                                                               *)
@@ -327,28 +343,38 @@ LibEq(a, b) == IF IsLeaf(a) \/ IsLeaf(b) THEN IsLeaf(a) /\ IsLeaf(b) /\ BaseKind
 \* evaluation as the class does it: both operands are evaluated (a mutant reuses the left value for an "equal" right one)
 \* a leaf as the shipped function computes it (a mutant clamps the interpolated ramp between initial and final)
 MinI(a, b) == IF a < b THEN a ELSE b
-LeafMech(k, p, t) == IF MConstDtype /\ k \in {"K2", "K3"} /\ PtOf(p) \in 10..12 THEN 0
+LeafMechC(k, p, t, c) ==
+                     IF MConstDtype /\ k \in {"K2", "K3"} /\ PtOf(p) \in 10..12 THEN 0
                      ELSE IF MRampClamp /\ k \in {"RU", "RD"}
                      THEN LET ini == IF k = "RU" THEN -(Q \div 2) ELSE Q
                               fin == IF k = "RU" THEN 3 * (Q \div 2) ELSE Q \div 4
                               v == ini + ((fin - ini) * (t - Q \div 2)) \div (2 * Q)
                           IN MinI(Max(v, ini), fin)
-                     ELSE LeafVal(k, p, t)
-RECURSIVE EvalMech(_, _, _)
-EvalMech(tr, p, t) == IF IsLeaf(tr) THEN LeafMech(tr.k, p, t)
-                      ELSE LET lv == EvalMech(tr.l, p, t) IN
-                           IF MReuseEqual /\ IsParam(tr.l) /\ IsParam(tr.r) /\ LibEq(tr.l, tr.r) THEN ApplyN(tr, lv, lv)
-                           ELSE ApplyN(tr, lv, EvalMech(tr.r, p, t))
-EvalMechAt(tr, a, t) == [n \in 1..Len(ArgPts(a)) |-> EvalMech(tr, ArgPts(a)[n], t)]
+                     ELSE LeafValC(k, p, t, c)
+LeafMech(k, p, t) == LeafMechC(k, p, t, Q)
+RECURSIVE EvalMech(_, _, _, _)
+EvalMech(tr, p, t, c) == IF IsLeaf(tr) THEN LeafMechC(tr.k, p, t, c)
+                         ELSE LET lv == EvalMech(tr.l, p, t, c) IN
+                              IF MReuseEqual /\ IsParam(tr.l) /\ IsParam(tr.r) /\ LibEq(tr.l, tr.r) THEN ApplyN(tr, lv, lv)
+                              ELSE ApplyN(tr, lv, EvalMech(tr.r, p, t, c))
+EvalMechAt(tr, a, t, c) == [n \in 1..Len(ArgPts(a)) |-> EvalMech(tr, ArgPts(a)[n], t, c)]
 
-\* time seen by a caching operand: with a cache keyed without the time the first call at an argument wins
-TEff(o, f, a, t) == IF MCacheKeyTime THEN t
-                    ELSE IF \E e \in o.first : e[1] = f /\ e[2] = a
-                         THEN (CHOOSE e \in o.first : e[1] = f /\ e[2] = a)[3] ELSE t
-CallVals(tr, o, f, t) == [a \in Args |-> IF IsLeaf(tr) THEN EvalMechAt(tr, a, t) ELSE EvalMechAt(tr, a, TEff(o, f, a, t))]
+\* the time part of the operand cache's key.  Prescribed: the time itself (distinct times, distinct keys).  Mechanisms that
+\* do less: no time in the key at all; CPython's hash of the time, which maps -1 to -2 (-1 is the error return of tp_hash)
+KeyT(t) == IF ~MCacheKeyTime THEN 0
+           ELSE IF MCacheKeyHashT /\ t = (-1) * Q THEN (-2) * Q ELSE t
+\* the keyword part of the key, likewise: the keyword values themselves | CPython's hash of them
+KeyK(c) == IF MCacheKeyHashK /\ c = (-1) * Q THEN (-2) * Q ELSE c
+\* time and keyword value seen by a caching operand: those of the first call at that argument whose key equals the key of
+\* this call (o.first holds <<form, argument, time key, keyword key, time and keyword value the cached value was computed at>>)
+Hit(o, f, a, t) == {e \in o.first : e[1] = f /\ e[2] = a /\ e[3] = KeyT(t) /\ e[4] = KeyK(o.kw)}
+TEff(o, f, a, t) == IF Hit(o, f, a, t) # {} THEN (CHOOSE e \in Hit(o, f, a, t) : TRUE)[5] ELSE t
+CEff(o, f, a, t) == IF Hit(o, f, a, t) # {} THEN (CHOOSE e \in Hit(o, f, a, t) : TRUE)[6] ELSE o.kw
+CallVals(tr, o, f, t) == [a \in Args |-> IF IsLeaf(tr) THEN EvalMechAt(tr, a, t, o.kw)
+                                         ELSE EvalMechAt(tr, a, TEff(o, f, a, t), CEff(o, f, a, t))]
 
 None == [what |-> "none"]
-Obj0 == [alive |-> FALSE, td |-> "unset", filled |-> {}, first |-> {}, bufs |-> {}, eq |-> "unset"]
+Obj0 == [alive |-> FALSE, td |-> "unset", filled |-> {}, first |-> {}, bufs |-> {}, kw |-> Q, eq |-> "unset"]
 
 -----------------------------------------------------------------------------
 Init == /\ tree \in T0 /\ pc = "grow" /\ orig = Obj0 /\ copy = Obj0
@@ -394,14 +420,21 @@ Build == /\ pc \in {"grow", "twin", "ship", "konst"} /\ IsParam(tree)
 CallOn(o, f, t, fill) ==
   [o EXCEPT !.filled = o.filled \cup fill,
             !.first = IF Expect(tree, f) = "val" /\ FormHasT(f)
-                      THEN o.first \cup {<<f, a, TEff(o, f, a, t)>> : a \in Args} ELSE o.first]
+                      THEN o.first \cup {<<f, a, KeyT(t), KeyK(o.kw), TEff(o, f, a, t), CEff(o, f, a, t)>> : a \in Args} ELSE o.first]
 Call(f, t, fill) ==
   /\ pc = "built"
   /\ fill \subseteq ParamPaths(tree, "o")
-  /\ last' = [what |-> "call", who |-> "orig", f |-> f, t |-> t, kind |-> Expect(tree, f), vals |-> CallVals(tree, orig, f, t)]
+  /\ last' = [what |-> "call", who |-> "orig", f |-> f, t |-> t, c |-> orig.kw, kind |-> Expect(tree, f), vals |-> CallVals(tree, orig, f, t)]
   /\ orig' = CallOn(orig, f, t, fill)
   /\ ncalls' = ncalls + 1
   /\ UNCHANGED <<tree, pc, copy, pickled>>
+
+\* the keyword argument c of every time-dependent leaf of the built object is set to c, in place
+Retune(c) ==
+  /\ pc = "built"
+  /\ orig' = [orig EXCEPT !.kw = c]
+  /\ last' = [what |-> "retune", c |-> c]
+  /\ UNCHANGED <<tree, pc, copy, pickled, ncalls>>
 
 Eq(other) ==
   /\ pc = "built"
@@ -424,7 +457,7 @@ EvalD(tr, pcur, pold, t, root) ==
   IF IsLeaf(tr) THEN (IF tr.k \in TdKinds /\ ~root THEN LeafMech(tr.k, pold, t) ELSE LeafMech(tr.k, pcur, t))
   ELSE ApplyN(tr, EvalD(tr.l, pcur, pold, t, FALSE), EvalD(tr.r, pcur, pold, t, FALSE))
 Deliver(f, t, a, b, fill) ==
-  /\ pc = "built" /\ a \in ArrArgs \cup VecArgs \cup IntArgs /\ b \in Bufs
+  /\ pc = "built" /\ orig.kw = Q /\ a \in ArrArgs \cup VecArgs \cup IntArgs /\ b \in Bufs
   /\ fill \subseteq ParamPaths(tree, "o")
   /\ LET sa == StaleArg(orig, f, b, t, a) IN
        last' = [what |-> "deliver", f |-> f, t |-> t, a |-> a, b |-> b, kind |-> Expect(tree, f),
@@ -450,7 +483,7 @@ Pickle == /\ pc \in {"built", "cleared", "copied"}
           /\ UNCHANGED <<tree, orig, copy, ncalls>>
 
 Unpickle == /\ pc = "pickled"
-            /\ copy' = [Obj0 EXCEPT !.alive = TRUE, !.td = IF pickled.has THEN pickled.td ELSE "unset",
+            /\ copy' = [Obj0 EXCEPT !.alive = TRUE, !.td = IF pickled.has THEN pickled.td ELSE "unset", !.kw = orig.kw,
                                     !.eq = B2S(EqMech(tree, tree))]
             /\ pc' = "copied" /\ last' = None /\ ncalls' = 0
             /\ UNCHANGED <<tree, orig, pickled>>
@@ -460,7 +493,7 @@ Unpickle == /\ pc = "pickled"
 CallCopy(f, t, fill) ==
   /\ pc = "copied"
   /\ fill \subseteq ParamPaths(tree, "o")
-  /\ last' = [what |-> "call", who |-> "copy", f |-> f, t |-> t,
+  /\ last' = [what |-> "call", who |-> "copy", f |-> f, t |-> t, c |-> copy.kw,
               kind |-> IF pickled.has \/ ~HasCompositeOperand(tree) THEN Expect(tree, f) ELSE "broken",
               vals |-> CallVals(tree, copy, f, t)]
   /\ copy' = CallOn(copy, f, t, fill)
@@ -487,9 +520,18 @@ FillOf(f) == IF Expect(tree, f) = "val" /\ FormHasT(f) THEN CachingPaths(tree, "
 CallTimes(f) == IF FormHasT(f) THEN Times ELSE {0}
 \* exploration order of the model-checking runs (the trace specification uses the actions without it)
 MCall == pc = "built" /\ \E f \in Forms, t \in Times :
-           /\ t \in CallTimes(f) /\ ncalls < 2 /\ last.what \in {"none", "call"}
-           /\ (last.what = "call" => (last.f = f /\ FormHasT(f) /\ last.t # t))  \* second call: same form, other time
+           /\ t \in CallTimes(f) /\ ncalls < 2 /\ last.what \in {"none", "call", "retune"}
+           \* second call: same form, other time (every ordered pair of distinct times), where the form answers
+           /\ (last.what = "call" => (last.f = f /\ FormHasT(f) /\ last.t # t /\ Expect(tree, f) # "fail" /\ orig.kw = Q))
+           \* after an edit of the keyword argument: the form that answers, at one time (the same before and after the edit)
+           /\ (last.what = "retune" => (f = "F3T" /\ t = Q))
            /\ Call(f, t, FillOf(f))
+\* the keyword argument of the time-dependent leaves edited before the first call and between two calls at the same time
+MRetune == /\ pc = "built" /\ TimeDep(tree) /\ ~HasShipped(tree) /\ Expect(tree, "F3T") = "val"
+           /\ \/ last.what = "none" /\ ncalls = 0
+              \/ last.what = "call" /\ ncalls = 1 /\ last.f = "F3T" /\ last.t = Q
+           /\ \E c \in KwVals \ {orig.kw} : Retune(c)
+MClear == orig.kw = Q /\ Clear
 \* at most two deliveries, into the same owned buffer, at one time, in the argument form the expression answers
 ValForm(f) == Expect(tree, f) = "val" /\ f = (IF TimeDep(tree) THEN "F3T" ELSE IF DimsFit(tree, "F3") THEN "F3" ELSE "F2")
 \* an expression on shipped leaves: the whole (3, 3) array at each time
@@ -507,21 +549,21 @@ MEq == last.what = "none" /\ \E other \in Variants(tree) : Eq(other)
 MPickle == pc = "cleared" /\ Pickle
 MClearCopy == last.what # "clear" /\ ClearCopy
 MSolve == pc = "copied" /\ Solve
-Next == Grow \/ Twin \/ Ship \/ Konst \/ Build \/ MShipDeliver \/ MIntDeliver \/ MDeliver \/ MCall \/ MEq \/ Clear \/ MPickle \/ Unpickle \/ MCallCopy \/ MClearCopy \/ MSolve
+Next == Grow \/ Twin \/ Ship \/ Konst \/ Build \/ MShipDeliver \/ MIntDeliver \/ MDeliver \/ MCall \/ MRetune \/ MEq \/ MClear \/ MPickle \/ Unpickle \/ MCallCopy \/ MClearCopy \/ MSolve
 
 Spec == Init /\ [][Next]_vars
 
 -----------------------------------------------------------------------------
 (* PROPERTY clauses (C16; PickleRoundTrip also C14)                        *)
 TypeOK == /\ pc \in {"grow", "twin", "ship", "konst", "built", "failed", "cleared", "pickled", "copied", "solved"}
-          /\ Level(tree) <= MaxLevel /\ ncalls \in 0..2
+          /\ Level(tree) <= MaxLevel /\ ncalls \in 0..2 /\ orig.kw \in KwVals /\ copy.kw \in KwVals
 
-\* a call that must answer answers the pointwise combination of its operands' values; a call that must
-\* fail does not answer (kinds are part of the result)
+\* a call that must answer answers the pointwise combination of its operands' values (at the time of the call, with the
+\* operands' keyword arguments as they are at the call); a call that must fail does not answer (kinds are part of the result)
 EvalIsPointwise ==
   /\ last.what = "call" =>
        /\ last.kind \in {"val", "fail", "either"}
-       /\ last.kind \in {"val", "either"} => \A a \in Args : last.vals[a] = EvalAt(tree, a, last.t)
+       /\ last.kind \in {"val", "either"} => \A a \in Args : last.vals[a] = EvalAtC(tree, a, last.t, last.c)
   \* ... whatever memory the points arrive in, and whatever was there before
   /\ last.what = "deliver" =>
        /\ last.kind \in {"val", "fail", "either"}
@@ -542,11 +584,10 @@ SolverDomain(tr) == /\ AllLeaves3D(tr) /\ "P3" \in Kinds(tr) /\ ~HasTwin(tr) /\ 
                           /\ \A c \in {tr.l, tr.r} : IsLeaf(c) \/ (Level(c) = 1 /\ OkOp(c))
 
 \* export: one line per expression with what the property expects of it (replayed against the real classes)
-TimeSeq == <<0, 1 * Q, 3 * Q>>
 Emit == (pc \in {"built", "failed"} /\ last.what = "none") =>
           PrintT(ToJson([tree |-> tree, td |-> TimeDep(tree), level |-> Level(tree), h |-> H(tree),
                          solver |-> SolverDomain(tree), twin |-> HasTwin(tree), ship |-> HasShipped(tree), konst |-> HasConst(tree),
                          eqs |-> IF HasTwin(tree) THEN {} ELSE SameFlat(tree),
                          expect |-> [f \in Forms |-> Expect(tree, f)],
-                         vals |-> [f \in Forms |-> [n \in 1..3 |-> [a \in Args |-> EvalAt(tree, a, TimeSeq[n])]]]]))
+                         vals |-> [f \in Forms |-> [n \in 1..Len(TimeSeq) |-> [a \in Args |-> EvalAt(tree, a, TimeSeq[n])]]]]))
 =============================================================================
